@@ -238,6 +238,7 @@ def ocaml_build(ext_v, mlmod, runner):
         exe = os.path.join(binp, runner)
         ext = os.path.join(COQ, "extract", ext_v)
         srcs = [ext, os.path.join(OCAML, runner + ".ml"), os.path.join(OCAML, "conv.ml")]
+        srcs += [os.path.join(OCAML, f) for f in os.listdir(OCAML) if f.endswith(".ml.in")]
         newest = max(os.path.getmtime(s) for s in srcs)
         vo_newest = 0
         for d, _, fs in os.walk(os.path.join(COQ, "theories")):
@@ -251,8 +252,15 @@ def ocaml_build(ext_v, mlmod, runner):
             return False, out
         bdir = os.path.join(OCAML, "_build", runner)
         os.makedirs(bdir, exist_ok=True)
-        for s in (os.path.join(OCAML, "conv.ml"), ml, ml + "i", os.path.join(OCAML, runner + ".ml")):
+        for s in (os.path.join(OCAML, "conv.ml"), ml, ml + "i"):
             sh(["cp", s, bdir])
+        # (*INCLUDE file*) lines are replaced by the file's text
+        rsrc = open(os.path.join(OCAML, runner + ".ml")).read()
+        def _inc(m):
+            return open(os.path.join(OCAML, m.group(1))).read()
+        rsrc = re.sub(r"\(\*INCLUDE ([\w.]+)\*\)", _inc, rsrc)
+        with open(os.path.join(bdir, runner + ".ml"), "w") as f:
+            f.write(rsrc)
         rc, out2 = sh("ocamlfind ocamlopt -w -a -package zarith -linkpkg -o %s conv.ml %s.mli %s.ml %s.ml"
                       % (exe, mlmod, mlmod, runner), cwd=bdir, timeout=900)
         return rc == 0, out + out2
